@@ -20,10 +20,32 @@ ASSUMPTIONS = [
 ]
 
 
+# design finding 7.7 (repaired by a8647e5): a symlink whose cache object has another hard link must be
+# relinked under type hardlink; and the plain 3x3 diagonal
+CORPUS = [
+    {"stream": "converge", "cls": "local", "types": ["hardlink"], "state": True, "relink": True, "second": "plain",
+     "force": True, "prompt": "none", "prior": {"a": ["A", "symlink"], "b.txt": ["A", "hardlink"]},
+     "target": {"a": "A", "b.txt": "A"}, "cache": ["A"]},
+    {"stream": "converge", "cls": "base", "types": ["symlink"], "state": False, "relink": True, "second": "same",
+     "force": True, "prompt": "none", "prior": {"a": ["A", "copy"], "sub/c": ["B", "hardlink"], "e": ["E", "copy"]},
+     "target": {"a": "A", "sub/c": "B", "e": "E"}, "cache": ["A", "B", "E"]},
+    {"stream": "converge", "cls": "local", "types": ["copy"], "state": True, "relink": True, "second": "plain",
+     "force": True, "prompt": "none", "prior": {"a": ["A", "symlink"], "sub/c": ["B", "hardlink"]},
+     "target": {"a": "A", "sub/c": "B", "z y": "A"}, "cache": ["A", "B"]},
+]
+
+
 def run(ctx):
     C.check_deciders(ctx)
     streams = [("converge", ctx.n(90, 1100)), ("guard", ctx.n(20, 200)), ("missing", ctx.n(10, 100))]
     items = C.run_stream(ctx, streams, "C10")
+    for case in CORPUS:                                     # regression inputs, always run
+        case = dict(case, contents=dict(C.CONTENT_POOL))
+        r = C.run_case(ctx, case)
+        ctx.case(case, r["nontrivial"])
+        for sig, what in r["c10"]:
+            ctx.oracle_fail(sig, what, case)
+        items.extend(r["items"])
     if C.INCLUDE_DANGLING:
         r = C.run_case(ctx, dict(C.TRUNCATION_CASE))          # oracle only: outside the model (see its comment)
         ctx.case(C.TRUNCATION_CASE, True)
